@@ -413,9 +413,9 @@ class Regex(PatternQuery):
         prefix = PatternQuery._find_prefix(self, text)
 
         lp = len(prefix)
-        if lp < len(text) and text[lp] in "*?":
-            # we stripped something starting from * or ? - they both MAY mean
-            # "0 times". As we had stripped starting from FIRST special char,
+        if lp < len(text) and text[lp] in "*?{":
+            # we stripped something starting from * or ? or {m,n} - they all MAY
+            # mean "0 times". As we had stripped starting from FIRST special char,
             # that implies there were only ordinary chars left of it. Thus,
             # the very last of them is not part of the real prefix:
             prefix = prefix[:-1]
